@@ -19,7 +19,7 @@ RULE = ("cases: sequences of 1-3 public operations (products, solves through Cho
         "stride-0} and the same tensor in two roles. oracle: a TorchDispatchMode sees every ATen op the library executes; a write "
         "(schema argument flagged is_write, out= and detach_/requires_grad_ excepted) into the storage of a caller tensor is a violation, "
         "as is any change of version counter, metadata or bytes of a caller tensor, of the sentinel padding, or of the dense matrix "
-        "denoted by the pre-existing operator. distinct key = (operation, root class, layout) [added: sequences also run with max_cholesky_size = n - 1 (between the size of the parts and of the whole); tensor indices with negative entries (also slices of larger tensors)] [round 4: 20% of the cases are rectangular / general square operators (Cat along either matrix dimension with structured square blocks, products, interpolations) under the operations that need no definiteness, incl. matrix-vector products]")
+        "denoted by the pre-existing operator. distinct key = (operation, root class, layout) [added: sequences also run with max_cholesky_size = n - 1 (between the size of the parts and of the whole); tensor indices with negative entries (also slices of larger tensors)] [round 4: 20% of the cases are rectangular / general square operators (Cat along either matrix dimension with structured square blocks, products, interpolations) under the operations that need no definiteness, incl. matrix-vector products] [round 5: contour_integral_quad called directly, fresh and re-using a quadrature rule (weights= / shifts= as caller tensors), with and without shift_offset]")
 ASSUMPTIONS = ["op schemas (alias_info.is_write) identify in-place ATen writes", "bitwise comparison of snapshots taken before the call"]
 REQUIRED_STATS = ("operations", "aten_ops_seen", "aten_writes_seen")
 
